@@ -29,9 +29,8 @@ TRUSTED_BASE = ["not modelled: go/parser and the ANTLR Python lexer/parser (the 
 ASSUMPTIONS = ["the file name is demo.go / demo.py (package name of the path is empty), no go.mod, no extensions",
                "Go: no top-level var/const specs, no function literals, no local type declarations; identifiers "
                "called as f(...) are not parameters or local variables",
-               "Python: modules small enough for coca's Python lexer (its 32-slot token ring buffer corrupts the "
-               "token stream of any module with more than about 30 logical lines; such texts are rejected by the "
-               "parser and are outside the property's quantifier)"]
+               "Python: no size limit on modules (the lexer's 32-slot token ring used to corrupt modules above about "
+               "30 logical lines; repaired by f146bde, the py_long stream now generates modules of a few hundred lines)"]
 
 # ------------------------------------------------------------------ rendering: Go
 def r_type(t):
@@ -506,7 +505,7 @@ def gen_py(rng, imp_list=False, nested_def=False, nested_class=False, from_as=Fa
             [gen_pynode(rng, False, f, 0, nested_def, False, local_class) for f in fns]
     rng.shuffle(decls)
     items += [["node", d] for d in decls]
-    # stay inside the lexer's ring buffer
+    # historical cap (MAX_LOAD is now unbounded: the lexer ring defect was repaired by f146bde)
     while lexer_load(render_py(items)) > MAX_LOAD and items:
         # drop the last kid of the last node, else the last item
         last = items[-1]
@@ -661,6 +660,26 @@ def cases(seed, tier):
     stream("py_nested_class", 12 if q else 400, lambda r: gen_py(r, nested_class=True, n_decl=1), "py")
     stream("py_from_as", 10 if q else 300, lambda r: gen_py(r, from_as=True), "py")
     stream("py_local_class", 10 if q else 300, lambda r: gen_py(r, local_class=True, n_decl=1), "py")
+    # the same class / method / function name several times in one module (classes local to two methods,
+    # getter / setter pairs, redefinitions): nothing may be looked up by name
+    def py_dups(r):
+        items = gen_py(r, nested_def=r.random() < 0.3, nested_class=r.random() < 0.3, local_class=r.random() < 0.6,
+                       n_decl=r.randint(1, 2))
+        nodes = [it[1] for it in items if it[0] == "node"]
+        classes = [n for n in nodes if n[0] == "1"]
+        for c in classes:
+            defs = [k for k in c[3] if k[0] == "0"]
+            if defs and r.random() < 0.7:
+                d = r.choice(defs)
+                c[3].insert(r.randint(0, len(c[3])), ["0", [[d[2] + ".setter", []]] if r.random() < 0.6 else gen_decos(r, 0.5), d[2], []])
+        if len(classes) >= 2 and r.random() < 0.5:
+            classes[1][2] = classes[0][2]                       # a class redefined
+        fns = [n for n in nodes if n[0] == "0"]
+        if fns and r.random() < 0.5:
+            f = r.choice(fns)
+            items.append(["node", ["0", gen_decos(r, 0.5), f[2], []]])   # a function redefined
+        return items
+    stream("py_dups", 25 if q else 800, py_dups, "py")
     stream("py_mixed", 40 if q else 3000,
            lambda r: gen_py(r, imp_list=r.random() < 0.3, nested_def=r.random() < 0.4,
                             nested_class=r.random() < 0.3, from_as=r.random() < 0.2,
